@@ -27,6 +27,41 @@ structure World where
   gates : Nat → List Nat       -- `module.gates()` in creation order
   owner : Nat → Nat            -- `gate.owner().id()`
 
+/-- an entry of `ModuleTree` as far as the node order is concerned: module, depth of its path
+    (`path.len()`), parent.  (The full model of the module tree is property C12's `ModTree`.) -/
+structure Ent where
+  id : Nat
+  depth : Nat
+  parent : Option Nat
+deriving Repr, DecidableEq
+
+/-- the `while pos < len && modules[pos].path.len() > parent_depth { pos += 1 }` loop -/
+def skipDeeper (depth : Nat) : List Ent → Nat
+  | [] => 0
+  | e :: rest => if e.depth > depth then skipDeeper depth rest + 1 else 0
+
+/-- `Iterator::rposition` -/
+def rpos (f : Ent → Bool) : List Ent → Option Nat
+  | [] => none
+  | x :: xs =>
+    match rpos f xs with
+    | some i => some (i + 1)
+    | none => if f x then some 0 else none
+
+/-- `ModuleTree::add`: a top-level module is pushed at the end, a child is inserted behind the
+    subtree of its parent — the node order of `Topology::current()` is this tree order, not the
+    creation order (`none`: the parent does not exist, the builder panics) -/
+def treeAdd (ms : List Ent) (m : Nat) (parent : Option Nat) : Option (List Ent) :=
+  match parent with
+  | none => some (ms ++ [⟨m, 1, none⟩])
+  | some p =>
+    match rpos (·.id == p) ms with
+    | none => none
+    | some i =>
+      let dp := ((ms[i]?).map (·.depth)).getD 0
+      let pos := i + 1 + skipDeeper dp (ms.drop (i + 1))
+      some (ms.take pos ++ ⟨m, dp + 1, some p⟩ :: ms.drop pos)
+
 /-- `EdgeRaw` -/
 structure Edge where
   dst : Nat
